@@ -260,7 +260,7 @@ class ResolverResolve(Contract):
     id = "C14.ProcessingPipelineResolver.resolve"
     target = "sigma.processing.resolver:ProcessingPipelineResolver.resolve"
     props = ("C14",)
-    cases = ("", "a", "ab", "ba", "abc", "acb", "bac", "bca", "cab", "cba")
+    cases = ("", "a", "ab", "ba", "abc", "acb", "bac", "bca", "cab", "cba", ("x/n", "y/n"), ("y/n", "x/n"), ("w/b", "v/b", "a"), ("v/b", "a", "w/b"))
     assumed = ["sorted() is a stable sort that compares keys with < only", "specs are pipeline names (Path(spec).is_dir() is False); resolve_pipeline returns the registered pipeline of that name",
                "list length unrolled: 0..3 pipelines (all argument orders)"]
 
@@ -271,7 +271,9 @@ class ResolverResolve(Contract):
         class PathVal:
             def __init__(self, s):
                 self.s = s
-        E.externals["pathlib.Path"] = lambda I, args, kwargs: SObj("Path", {"is_dir": NativeFn("is_dir", lambda I2, a, k: False), "glob": None})
+        import os.path
+        E.externals["pathlib.Path"] = lambda I, args, kwargs: SObj("Path", {"is_dir": NativeFn("is_dir", lambda I2, a, k: False), "glob": None,
+                                                                             "name": os.path.basename(I.force(args[0])) if isinstance(I.force(args[0]), str) else I.fresh("basename", "str")})
 
     def args(self, I, case):
         cinfo = I.E.index.lookup("sigma.processing.resolver:ProcessingPipelineResolver")
@@ -279,7 +281,7 @@ class ResolverResolve(Contract):
         for n in case:
             p = mk_pipeline(I, n)
             p.ghost["name"] = n
-            p.fields["priority"] = I.fresh(f"prio_{n}", "int")
+            p.fields["priority"] = I.fresh(f"prio_{n.replace('/', '_')}", "int")
             pipes[n] = p
         me = SObj(cinfo, {}, lazy=True)
         me.ghost["pipes"] = pipes
@@ -293,10 +295,10 @@ class ResolverResolve(Contract):
         if not ok:
             return
         names = r.ghost.get("operands", [r.ghost.get("name")] if r.ghost.get("name") else [])
-        c.require(sorted(names) == sorted(inp["case"]), f"every resolved pipeline is combined exactly once (got {names})")
+        c.require(sorted(names) == sorted(list(inp["case"])), f"every resolved pipeline is combined exactly once (got {names})")
         for x, y in zip(names, names[1:]):
             px, py = inp["pipes"][x].fields["priority"].t, inp["pipes"][y].fields["priority"].t
-            c.require(z3.Or(px < py, z3.And(px == py, z3.BoolVal(x <= y))), f"combination order follows (priority, name): {x} before {y}")
+            c.require(z3.Or(px < py, z3.And(px == py, z3.BoolVal(x <= y))), f"combination order follows (priority, full specifier): {x} before {y}")
 
     def frame_ok(self, I, inp, obj, name):
         return False
